@@ -61,6 +61,12 @@ def configs(ctx):
 def run(ctx):
     cfgs, N_MANDATORY = configs(ctx)
     kernelcheck.run_configs(ctx, cfgs, budget_s=70 if ctx.tier == "quick" else 3000, mandatory=N_MANDATORY)
+    dc = kernelmat.default_config
+    rs = random.Random(ctx.sub("statcfg"))
+    stat_cfgs = [dc(op="pg", n=5, N=rs.choice([3, 5, 10]), style=rs.choice(["binom", "gauss"]), grid=rs.choice([7, 11]), proposal=p_, wiring=rs.choice(["run", "lib"]),
+                    data_seed=rs.randrange(1 << 30), alpha=rs.choice([0.5, 1.0, 2.0]), outlier_prob=rs.choice([0.0, 0.0, 0.1]), threshold=rs.choice([0.5, 1.0]))
+                 for p_ in (PROPOSALS if ctx.tier != "quick" else [rs.choice(PROPOSALS)])]
+    kernelcheck.run_stat_configs(ctx, stat_cfgs, 8000 if ctx.tier == "quick" else 150000)
     # beyond the traversable sizes: sampled paths with path-local oracles only (can refute, never confirm)
     seeds = [ctx.sub(("path", i)) for i in range(160 if ctx.tier == "quick" else 6000)]
     res = runner.pmap(pgpath.task, seeds, timeout=1200)
